@@ -101,7 +101,31 @@ def isa_with(macros):
 def program(line_or_lines):
     body = line_or_lines if isinstance(line_or_lines, list) else [line_or_lines]
     return '\n'.join(['start:', '    nop'] + ['    ' + l for l in body] +
-                     ['after:', '    .2byte after, start, fwd', 'fwd:', '    .byte 238']) + '\n'
+                     ['after:', '    .2byte after, start, fwd', 'fwd:', '    .byte 238', 'FWD:', '    .byte 237', 'Start:', '    nop']) + '\n'
+
+
+# several invocations of one macro in one program: every invocation is expanded from its own operand text (labels and character
+# literals are case sensitive, whitespace is not significant)
+SEQ_OPERANDS = [('fwd', 'FWD'), ('FWD', 'fwd'), ("'A'", "'a'"), ('start', 'Start'), ('5', '5'), ('fwd + 1', 'fwd+1'), ('fwd', 'fwd')]
+
+
+def sequences(acc, tier, idx, n):
+    tpl_sets = [['n12 @ARG(0)'], ['jmp @ARG(0)', 'nop'], ['ldi a, @ARG(0)', 'n12 @OP(0)'], ['ldm [@ARG(0)]']]
+    for ctr, (steps, (x1, x2)) in enumerate(itertools.product(tpl_sets, SEQ_OPERANDS)):
+        if ctr % n != idx:
+            continue
+        isa = isa_with({'mac': [{'operands': {'count': 1, 'operand_sets': {'list': ['imm']}}, 'instructions': list(steps)}]})
+        ops = [[(x, x, None)] for x in (x1, x2, x1)]
+        body = [f'mac {o[0][0]}' for o in ops]
+        expanded = [substitute(t, o) for o in ops for t in steps]
+        c1, c2 = Case(isa, program(body)), Case(isa, program(expanded))
+        o1, o2 = acc.run(c1), acc.run(c2)
+        acc.transition(2)
+        spec = {'type': 'pair'}
+        m = judge_pair(spec, [o1, o2])
+        if m:
+            acc.violation([c1, c2], spec, f'invocations {body} with steps {steps}: {m}', [o1, o2])
+        acc.judge(clause='expansion', nontrivial_key=('seq', tuple(steps), x1, x2))
 
 
 def meta(tier):
@@ -113,7 +137,7 @@ def meta(tier):
                 'combination of operand alternatives (literals, backward and forward labels, label expressions, registers); '
                 'oracle: image(program with macro) == image(program with the invocation replaced by the substituted steps), both '
                 'assembled by the real code; unfillable placeholders must be rejected; non-trivial = macro with >=2 steps or a '
-                'forward reference; twin definitions: an instruction and a macro with the same sequence of 1..2 (thorough 3) variant layouts out of 8 '
+                'forward reference; three invocations of one macro in one program whose operands differ in letter case or spacing only (7 operand pairs x 4 step lists); twin definitions: an instruction and a macro with the same sequence of 1..2 (thorough 3) variant layouts out of 8 '
                 '(no operands, an empty operand, operand sets, listed combinations, a listed combination with a trailing empty operand, both) x 7 '
                 'operand texts must match the same variant or both be rejected; states = distinct macro definitions',
         'bounds': {'patterns': {k: v[0] for k, v in PATTERNS.items()}, 'templates': TEMPLATES, 'unfillable': BAD_TEMPLATES,
@@ -142,6 +166,7 @@ def shard(acc, tier, idx, n):
     maxsteps = 3 if q else 4
     ctr = 0
     twins(acc, tier, idx, n)
+    sequences(acc, tier, idx, n)
     for pname, (sets, alts) in PATTERNS.items():
         tpls = TEMPLATES[pname]
         invocations = list(itertools.product(*alts))
